@@ -77,3 +77,52 @@ def call_route(acc, rname, w):
     except Exception:  # noqa: BLE001 - exception types are C19's business
         acc.count("other_exception")
     return None
+
+
+SPACES["K2"] = lambda: list(A.words(CORE, 2, 2))
+SPACES["nK2"] = lambda: list(A.words(A.CORE, 2, 2))
+
+
+def task_route_group(modname, listname, gi, ngroups, spnames):
+    """The context routes (routes.NAMES_CTX1 / NAMES_CTX2) in groups: every word of the named spaces through every route of the group."""
+    from . import routes
+    mod = importlib.import_module(modname)
+    acc = Acc(mod.ID, impl.backend)
+    states = set()
+    last = None
+    fn = mod.route_case
+    names = getattr(routes, listname)[gi::ngroups]
+    for spname in spnames:
+        ws = space(spname)
+        for rname in names:
+            for w in ws:
+                s = fn(acc, rname, w)
+                if s is not None:
+                    states.add(s)
+                    last = (rname, w, s)
+    acc.state_count = len(states)
+    if last:
+        acc.sample({"route": last[0], "word": last[1], "result": last[2], "backend": impl.backend}, 1)
+    return acc.result()
+
+
+def plan_ctx(modname, tier, backends=("c", "py"), nosurr=False, ngroups=12):
+    """One-factor contexts with F1+K2+X2 (thorough: +K3), all-pairs contexts with F1 (thorough: +K2)."""
+    p = "n" if nosurr else ""
+    one = (p + "F1", p + "K2", p + "X2") + ((p + "K3",) if tier != "quick" else ())
+    two = (p + "F1",) + ((p + "K2",) if tier != "quick" else ())
+    tasks = []
+    for b in backends:
+        for gi in range(ngroups):
+            tasks.append(("vlib.sweep", "task_route_group", (modname, "NAMES_CTX1", gi, ngroups, one), b, "x1"))
+        for gi in range(2 * ngroups):
+            tasks.append(("vlib.sweep", "task_route_group", (modname, "NAMES_CTX2", gi, 2 * ngroups, two), b, "x2"))
+    return tasks
+
+
+def ctx_note():
+    from . import routes
+    return {"dimensions": {k: [repr(v) for v in vs] for k, vs in routes.CTX_DIMS.items()}, "positions": list(routes.CTX_POSITIONS),
+            "one_factor_templates": len(routes.NAMES_CTX1), "all_pairs_templates": len(routes.NAMES_CTX2),
+            "meaning": "the constructor with the word in one component while the other components take every value of one "
+                       "dimension (one-factor) or of every pair of dimensions (all-pairs), the rest at their first value"}
